@@ -4,6 +4,9 @@ CLAIMED = {
  'C01': dict(engine='symx', design='4/C01', technique='symbolic execution of the real yastn+backend_np code on solver-variable tensor elements (z3 QF_NRA), structure catalogue as bound; counterexamples replayed on the float backend',
    text='Bounded symbolic model checking: for every structure in a pairwise-covering (thorough: 3-wise) catalogue of symmetries/ranks/signatures/sector sets/dims/charges/lazy states/policies, ALL stored tensor elements and scalars are z3 variables and the real operation is executed; z3 decides that no element of the re-assembled result can differ from the NumPy reference (unsat = holds for all values). Structure axis is enumerated (the bound), value axis is universally quantified.',
    note='Trusted: z3; NumPy object-array semantics of slicing/reshape/dot; harness dense re-assembly from a[block]+get_legs. Exact real/complex arithmetic (no round-off). Outside: torch backends, structures beyond the catalogue bounds.'),
+ 'C19': dict(engine='symx+z3-direct', design='4/C19', technique='z3 LIA queries on the real sym.fuse/add_charges executed over unbounded symbolic integer charges (object arrays of z3 Int terms); solver-driven exhaustive path exploration of Leg.__post_init__/conj over a box of symbolic integer arguments',
+   text='Group axioms (reference law, canonical range, regrouping for every split, commutativity, zero identity, inverse, idempotence, add_charges==fuse, row independence) are decided as unsat LIA queries for UNBOUNDED integer charges and symbolic signatures, m<=4 (thorough 5) fused charges, for all 7 shipped symmetry classes. Leg acceptance/sorting/conj are decided on every path of the real constructor over a finite box of symbolic integer arguments (in and just outside the valid domain): solver-driven enumeration, exhaustive within the box.',
+   note='Trusted: z3; NumPy object-array matmul/mod semantics. int64 modelled as mathematical integers. add_charges runs with an in-process np.array shim that keeps symbolic ints. Outside: Leg arguments beyond the box; user-defined symmetries.'),
 }
 NA = {
  'C09': 'DMRG: outcome of iterated floating-point Krylov eigen-solves and LAPACK sweeps; a contract stub for eigs would assume the conclusion, chained LAPACK contracts need non-linear ideal reasoning z3/cvc5 do not finish (DESIGN 5)',
